@@ -9,14 +9,19 @@
     parameters set to THAT segment's parameter dict; [good_state] = any parameter VALUES whatsoever
     in the shared model, raw_args empty or filled; [spec_op pk] = state-free description of a read,
     [pk] = which bodies get_producers / get_consumers have ([rf_prod gen_res_facts]: regenerated;
-    expected value = the switch coq/simres/ExpectedFacts.v, see design/C10.md). *)
+    expected value = the switch coq/simres/ExpectedFacts.v, see design/C10.md).
+    Since /repo 4167248 the views put the shared model's parameter values back ([rf_view = VKRestores], pinned
+    below): every theorem about [gen_res_facts] is about those bodies; the statements that were proved for the
+    older bodies ("a read leaves the model at the last segment's parameters") are unchanged -- they quantify
+    over EVERY parameter state of the shared model -- and the new section at the end says what a read does to
+    that state: nothing. *)
 From Coq Require Import List NArith ZArith QArith Bool.
 From MxlBase Require Import ListX.
 From SimRes Require Import ResModel ResFn ExpectedFacts ResSpec GenResFacts ResProofs ResNv ResNvProofs.
 Import ListNotations.
 Local Open Scope Z_scope.
 
-Theorem C10_facts_pinned : gen_res_facts = mkResFacts NRFixed true true true C10_expected_prod true true true.
+Theorem C10_facts_pinned : gen_res_facts = mkResFacts NRFixed true true true C10_expected_prod true true true VKRestores.
 Proof. vm_compute. reflexivity. Qed.
 Print Assumptions C10_facts_pinned.
 
@@ -218,7 +223,7 @@ Theorem C10_normalise_per_row_old_code_refuted :
   exists data qss,
     existsb is_zero (concat qss) = false /\ length (concat qss) <> length data /\
     Forall2 (fun f qs => length qs = length (f_rows f)) data qss /\ data <> [] /\
-    normalise (mkResFacts NRRebindEmpty true true true PKFirst true true true) data (NList (concat qss)) = Ok [].
+    normalise (mkResFacts NRRebindEmpty true true true PKFirst true true true VKLeavesLast) data (NList (concat qss)) = Ok [].
 Proof.
   exists [mkFrame [0; 1] [1%N] [[1%Q]; [2%Q]]], [[2%Q; 4%Q]].
   split; [reflexivity|]. split; [cbn; discriminate|]. split; [repeat constructor|]. split; [discriminate|reflexivity].
@@ -358,3 +363,90 @@ Proof.
     vm_compute. reflexivity.
 Qed.
 Print Assumptions C10_nonvacuous.
+
+(** reading a result never changes the parameter values of the shared model (since /repo 4167248:
+    [_compute_args] / [get_right_hand_side] remember the values in force, re-apply each segment's parameters
+    inside try: and put back what they found in finally:; [_get_fluxes_by_sign] no longer re-applies the last
+    segment's).  [user_edit o cur] = [cur] for every read, and [cur] with [k := v] for the user's own
+    [model.update_parameter(k, v)].  One read, from every reachable state: *)
+Theorem C10_read_keeps_model_parameters :
+  forall fsem m r pn tbs o st,
+    wf_res r pn -> evaluable fsem m pn -> canon_tables fsem m r = Ok tbs -> good_state pn tbs st ->
+    s_cur (snd (run_op fsem gen_res_facts m r o st)) = user_edit o (s_cur st).
+Proof. rewrite C10_facts_pinned. exact run_op_keeps. Qed.
+Print Assumptions C10_read_keeps_model_parameters.
+
+(** ... hence after ANY sequence of reads and user edits the model's parameters are the user's edits applied
+    to what the model had, in order -- the reads left no trace -- and the state is still a reachable one *)
+Theorem C10_model_parameters_are_the_users :
+  forall fsem m r pn tbs,
+    wf_res r pn -> evaluable fsem m pn -> canon_tables fsem m r = Ok tbs ->
+    forall os st, good_state pn tbs st ->
+      s_cur (final_state fsem gen_res_facts m r os st) = user_edits os (s_cur st)
+      /\ good_state pn tbs (final_state fsem gen_res_facts m r os st).
+Proof. rewrite C10_facts_pinned. exact final_state_pars. Qed.
+Print Assumptions C10_model_parameters_are_the_users.
+
+(** ... and [model.get_parameter_values()] observed at position [i] of any such sequence shows exactly the
+    user's edits made before position [i] *)
+Theorem C10_observed_parameters_are_the_users :
+  forall fsem m r pn tbs,
+    wf_res r pn -> evaluable fsem m pn -> canon_tables fsem m r = Ok tbs ->
+    forall os st i, good_state pn tbs st -> nth_error os i = Some OModelPars ->
+      nth_error (run_ops fsem gen_res_facts m r os st) i = Some (pars_dict (user_edits (firstn i os) (s_cur st))).
+Proof. rewrite C10_facts_pinned. exact model_pars_in_sequences. Qed.
+Print Assumptions C10_observed_parameters_are_the_users.
+
+(** regression (the bodies before 4167248, [old_view_facts] = the same facts with [VKLeavesLast]): the user sets
+    p := 5 on the shared model, reads the fluxes, and finds p = -1 (the last segment's value): a read undid the
+    user's update_parameter.  The answers of the views were right then too (same frames). *)
+Theorem C10_reads_keep_user_parameters_old_code_refuted :
+  wf_res wit_r [20%N] /\ evaluable fsemZ wit_m [20%N] /\
+  run_ops fsemZ (old_view_facts PKRows) wit_m wit_r [OUserUpd 20%N 5; OPropFluxes; OModelPars; ORhs NNone true; OModelPars] (mkSt [(20%N, 7)] [])
+  = [VUnit; VFrame (mkFrame [0; 1; 2] [70%N] [[1%Q]; [2%Q]; [3%Q]]); VDict [(20%N, (-1)%Q)];
+     VFrame (mkFrame [0; 1; 2] [1%N] [[1%Q]; [2%Q]; [(-3)%Q]]); VDict [(20%N, (-1)%Q)]]
+  /\ user_edits [OUserUpd 20%N 5; OPropFluxes] [(20%N, 7)] = [(20%N, 5)].
+Proof.
+  split; [split; [repeat constructor; cbn; intuition discriminate|split; [reflexivity|split; [discriminate|repeat constructor]]]|].
+  split.
+  - intros cur Hk. destruct cur as [|[k v] [|? ?]]; try discriminate. cbn in Hk. injection Hk as ->.
+    vm_compute. discriminate.
+  - split; vm_compute; reflexivity.
+Qed.
+Print Assumptions C10_reads_keep_user_parameters_old_code_refuted.
+
+(** non-vacuity: the same sequence on the bodies the tree has: the user's 5 survives both reads *)
+Example C10_read_keeps_model_parameters_nonvacuous :
+  run_ops fsemZ gen_res_facts wit_m wit_r [OUserUpd 20%N 5; OPropFluxes; OModelPars; ORhs NNone true; OModelPars] (mkSt [(20%N, 7)] [])
+  = [VUnit; VFrame (mkFrame [0; 1; 2] [70%N] [[1%Q]; [2%Q]; [3%Q]]); VDict [(20%N, 5%Q)];
+     VFrame (mkFrame [0; 1; 2] [1%N] [[1%Q]; [2%Q]; [(-3)%Q]]); VDict [(20%N, 5%Q)]].
+Proof. rewrite C10_facts_pinned. vm_compute. reflexivity. Qed.
+Print Assumptions C10_read_keeps_model_parameters_nonvacuous.
+
+(** "concatenated views are the per-segment views stacked in order": the stacked frame ([stacked d] of
+    [C10_concat_is_stack], i.e. [concat0]) has the index and the rows of every segment appended, so as many rows as
+    the segments have together -- nothing is merged or dropped when two segments report the same time point (a run
+    to steady state after a time course, two runs to steady state, a shared boundary point). *)
+Theorem C10_concat_keeps_every_row :
+  forall data f, concat0 data = Ok f ->
+    f_idx f = concat (map f_idx data) /\ f_rows f = concat (map f_rows data)
+    /\ length (f_rows f) = list_sum (map (fun x => length (f_rows x)) data).
+Proof. exact concat0_rows. Qed.
+Print Assumptions C10_concat_keeps_every_row.
+
+(** regression (seeded change C10-5, not in the tree): "keep the time index unique" after the concat loses the
+    earlier segment's row at a shared time point -- the view of segments [t = 0, 1] and [t = 1, 2] (different values at
+    t = 1: the parameters changed) has 3 rows instead of 4 and the value reported under the first segment's parameters
+    is gone.  [_adjust_data]'s shape is pinned ([rf_select_adjust_shape]), so that change also breaks
+    [C10_facts_pinned]; the harness reads such results through every concatenated view. *)
+Theorem C10_concat_unique_times_refuted :
+  exists data f g,
+    concat0 data = Ok f /\ concat0_unique_times data = Ok g /\
+    length (f_rows f) = 4%nat /\ length (f_rows g) = 3%nat /\
+    In [2%Q] (f_rows f) /\ ~ In [2%Q] (f_rows g).
+Proof.
+  exists [mkFrame [0; 1] [70%N] [[1%Q]; [2%Q]]; mkFrame [1; 2] [70%N] [[4%Q]; [6%Q]]].
+  eexists. eexists. split; [reflexivity|]. split; [reflexivity|]. split; [reflexivity|]. split; [reflexivity|].
+  split; [right; left; reflexivity|]. cbn. intros [H|[H|[H|[]]]]; discriminate.
+Qed.
+Print Assumptions C10_concat_unique_times_refuted.
